@@ -64,6 +64,7 @@ OPTION_SETS = {
     'elastic-thr': ['-ff', 'martini3001', '-elastic', '-eu', '@EU'],   # @EU: exactly the length of the longest elastic bond of the base run
     'cys-thr': ['-ff', 'martini3001', '-cys', '@CYS'],                 # @CYS: exactly the distance of the closest pair of SG atoms
     'go': ['-ff', 'martini3001', '-go', '-go-eps', '9.0'],             # Go model with the contact map vermouth computes itself
+    'mapdup': ['-ff', 'martini3001', '-map-dir', '@MAPDUP'],           # a user mapping directory with conflicting duplicates
 }
 ROTATIONS = [((1, 2, 3), (1, 1, 1)), ((2, 1, 3), (-1, 1, 1)), ((3, 1, 2), (1, 1, 1)), ((1, 3, 2), (1, -1, 1)), ((2, 3, 1), (1, 1, 1)),
              ((1, 2, 3), (-1, -1, 1))]
@@ -242,6 +243,23 @@ def closest_sg(text):
     return best
 
 
+def mapdup_directory():
+    """A user mapping directory that holds TWO old-style files for the same molecule and force-field pair (a kept earlier copy in a
+    sub-directory, found by the recursive search) with different weights: which one is in effect
+    may depend on the order the file system lists them in, never on the hash seed."""
+    root = os.path.join(_SCRATCH, 'mapdup')
+    if not os.path.isdir(root):
+        os.makedirs(os.path.join(root, 'old'))
+        for sub, atom in (('', 'CA'), ('old', 'N')):
+            for name in ('gly',):
+                lines = ['[ molecule ]', name.upper(), '[from]', 'charmm', '[to]', 'martini3001', '[ martini ]', 'BB', '[ atoms ]']
+                for k, a in enumerate(('N', 'CA', 'C', 'O'), 1):
+                    lines.append('%d %s %sBB' % (k, a, '' if a == atom else '!'))
+                with open(os.path.join(root, sub, '%s.charmm.map' % name), 'w') as fh:
+                    fh.write('\n'.join(lines) + '\n')
+    return root
+
+
 def options_for(inp, opt, base_text, probes):
     """Concrete option list, or None if a generated value is not available yet (needs the probe of a base run)."""
     out = []
@@ -255,6 +273,8 @@ def options_for(inp, opt, base_text, probes):
             if d is None:
                 return None
             tok = repr(d)
+        elif tok == '@MAPDUP':
+            tok = mapdup_directory()
         elif tok == '@EU':
             if probes.get(inp) is None:
                 return None
@@ -343,6 +363,7 @@ def pair_specs(tier, seed):
             ('trpcage', 'ss-explicit', [], ['permute+renameHs+motion']),
             ('betasheet', 'cys-thr', [], ['motion', 'permute+renameHs+motion']),
             ('trpcage', 'go', ['hashseed'], ['permute+renameHs']),
+            ('trpcage', 'mapdup', ['hashseed', 'hashseed', 'hashseed'], []),
         ]       # the elastic-thr family needs a probe run first (second wave): thorough tier only
     out = []
     t0 = ('dipro', 'trpcage', 'betasheet', 'helix')
@@ -367,6 +388,8 @@ def pair_specs(tier, seed):
         out.append(('lysozyme', opt, ['hashseed'] if opt == 'elastic-chain' else [], ['permute+motion']))
     out.append(('3i40', 'cys-thr', [], ['motion', 'permute+motion', 'motion']))
     out.append(('lysozyme', 'cys-thr', [], ['motion', 'permute+motion']))
+    out.append(('trpcage', 'mapdup', ['hashseed'] * 5, []))
+    out.append(('betasheet', 'mapdup', ['hashseed'] * 5, []))
     for inp in ('trpcage', 'betasheet', '3i40', '1UBQ'):       # Go model with the self-computed contact map (no rigid motion:
         out.append((inp, 'go', ['permute', 'hashseed'], ['permute', 'permute+renameHs']))      # contacts sit on many thresholds)
     for opt in ('elastic-chain', 'cys03', 'nt'):
